@@ -83,7 +83,7 @@ func c10Run(ctx *core.Ctx) {
 			}
 		}
 		for rep := 0; rep < 8; rep++ {
-			for _, fk := range []string{"nostarttls", "454", "garbage", "injected", "good", "goodbare", "injectedbare"} {
+			for _, fk := range []string{"nostarttls", "454", "garbage", "injected", "good", "goodbare", "injectedbare", "helofallbackbare"} {
 				emit(c10Case{Kind: "cli", Fake: fk, API: "NewClientStartTLS", Pre: fmt.Sprint(rep)})
 			}
 			for _, api := range []string{"DialStartTLS", "SendMail", "SendMailTLS"} {
@@ -420,7 +420,9 @@ func c10FakeScriptWith(conn net.Conn, fake string, implicit bool, cfg *tls.Confi
 			up := strings.ToUpper(l)
 			switch {
 			case strings.HasPrefix(up, "EHLO"):
-				if tlsOn && strings.HasSuffix(fake, "bare") {
+				if tlsOn && fake == "helofallbackbare" {
+					w("502 5.5.1 EHLO not implemented here\r\n") // inside TLS only HELO works
+				} else if tlsOn && strings.HasSuffix(fake, "bare") {
 					w("250 fake.test\r\n") // no extensions at all inside TLS
 				} else if tlsOn {
 					w("250-fake.test\r\n250-AUTH PLAIN\r\n250 SIZE 2000\r\n")
@@ -429,6 +431,8 @@ func c10FakeScriptWith(conn net.Conn, fake string, implicit bool, cfg *tls.Confi
 				} else {
 					w("250-fake.test\r\n250-STARTTLS\r\n250-AUTH PLAIN LOGIN\r\n250-DSN\r\n250-SMTPUTF8\r\n250 SIZE 1000\r\n")
 				}
+			case strings.HasPrefix(up, "HELO"):
+				w("250 fake.test\r\n")
 			case up == "STARTTLS":
 				switch fake {
 				case "454":
@@ -568,7 +572,7 @@ func c10Cli(ctx *core.Ctx, c c10Case) {
 			fail("C10:client-continues-without-tls", "the server answered the TLS handshake with garbage, yet Mail succeeded")
 			return
 		}
-	case "good", "injected", "goodbare", "injectedbare":
+	case "good", "injected", "goodbare", "injectedbare", "helofallbackbare":
 		if err != nil {
 			fail("C10:client-upgrade-failed", fmt.Sprintf("NewClientStartTLS failed against a correct server: %v", err))
 			return
@@ -587,7 +591,7 @@ func c10Cli(ctx *core.Ctx, c c10Case) {
 		}
 		sawEHLO, mailLine := false, ""
 		for _, l := range inside {
-			if strings.HasPrefix(l, "EHLO") {
+			if strings.HasPrefix(l, "EHLO") || strings.HasPrefix(l, "HELO") {
 				sawEHLO = true
 			}
 			if strings.HasPrefix(l, "MAIL") {
